@@ -242,6 +242,13 @@ func SelfTestBcrypt() error {
 		if got != x[1] {
 			return fmt.Errorf("bcrypt(%q) = %s, want %s", x[0], got, x[1])
 		}
+		key := append([]byte(x[0]), 0)
+		if len(key) > 72 {
+			key = key[:72]
+		}
+		if !bytes.Equal(BcryptRawRounds(key, salt, 32), BcryptRaw(key, salt, 5)) {
+			return fmt.Errorf("BcryptRawRounds(32) differs from BcryptRaw(cost 5)")
+		}
 	}
 	return nil
 }
